@@ -40,6 +40,9 @@ func init() {
 	mutant(&Mutant{Name: "c08-precision-unbounded", Property: "C08", File: "common.go",
 		Old: "func Number(num []byte, prec int) []byte {\n\tif len(num) <= 1 {\n\t\treturn num\n\t} else if len(num) <= prec {\n\t\tprec = 0 // more significant digits than characters: keep all, and keep start+prec from overflowing\n\t}\n", New: "func Number(num []byte, prec int) []byte {\n\tif len(num) <= 1 {\n\t\treturn num\n\t}\n",
 		Rule: "R08.5", Construct: "Number/sum with prec"})
+	mutant(&Mutant{Name: "c08-exponent-guard-reduced", Property: "C08", File: "common.go",
+		Old: "if origExp < 0 && (normExp < MinInt-origExp || normExp-n < MinInt-origExp) || 0 < origExp && (MaxInt-origExp < normExp || MaxInt-origExp < normExp-n) {", New: "if origExp < 0 && normExp < MinInt-origExp || 0 < origExp && MaxInt-origExp < normExp {",
+		Rule: "R08.6", Construct: "overflow guard"})
 	mutant(&Mutant{Name: "c08-number-appends", Property: "C08", File: "common.go",
 		Old: "\t\treturn num // exponent overflow\n", New: "\t\treturn append(num[:start], '0') // exponent overflow\n",
 		Rule: "R08.2", Construct: "Number"})
@@ -56,6 +59,7 @@ func runC08(c *Ctx) {
 	}
 	c.r084(pk)
 	c.r085(pk)
+	c.r086(pk)
 	for _, name := range []string{"Decimal", "Number"} {
 		fd := c.fn(r2, pk, name)
 		if fd == nil {
@@ -426,6 +430,145 @@ func (c *Ctx) r085(pk *packages.Package) {
 		}
 	}
 	c.R.Floor(rule, "sums with prec", n, 3)
+}
+
+// r086: the overflow guard of an unbounded sum covers what is derived from the sum.
+func (c *Ctx) r086(pk *packages.Package) {
+	const rule = "R08.6"
+	c.R.Rule(rule, "minify.Number adds the parsed exponent (as many digits as the input has) to the normalised exponent: `X += Y` on two non-constant ints. Such a sum is dominated by a guard that compares against MinInt / MaxInt, and the guard also covers every quantity derived from the sum afterwards by a further non-constant offset (`X - n`): for each later `X ± V` (V a variable) the guard contains a comparison over the same expression `X ± V`. A guard reduced to X alone lets `1.5e-9223372036854775808` wrap around and garbage bytes are written into the exponent")
+	info := pk.TypesInfo
+	fd := c.fn(rule, pk, "Number")
+	if fd == nil {
+		return
+	}
+	g := c.graph(pk, fd)
+	isIntVar := func(e ast.Expr) (types.Object, bool) {
+		id, ok := ast.Unparen(e).(*ast.Ident)
+		if !ok {
+			return nil, false
+		}
+		v, isVar := info.Uses[id].(*types.Var)
+		if !isVar || !isIntType(v.Type()) {
+			return nil, false
+		}
+		if tv, ok := info.Types[e]; ok && tv.Value != nil {
+			return nil, false
+		}
+		return v, true
+	}
+	n := 0
+	for _, y := range g.Nodes {
+		as, ok := y.Stmt.(*ast.AssignStmt)
+		if !ok || y.Kind != flow.KStmt || as.Tok != token.ADD_ASSIGN || len(as.Lhs) != 1 {
+			continue
+		}
+		xo, okx := isIntVar(as.Lhs[0])
+		_, oky := isIntVar(as.Rhs[0])
+		if !okx || !oky {
+			continue
+		}
+		// only sums whose right operand is parsed from digits (assigned `v*10 + …` somewhere)
+		parsed := false
+		ast.Inspect(fd.Body, func(q ast.Node) bool {
+			a2, ok := q.(*ast.AssignStmt)
+			if !ok || len(a2.Rhs) != 1 {
+				return true
+			}
+			// Y = int(v) with v bound to the result of a Parse* call, or Y = Y*10 + digit
+			if len(a2.Lhs) == 1 && str(a2.Lhs[0]) == str(as.Rhs[0]) {
+				if strings.Contains(nospace(str(a2.Rhs[0])), str(as.Rhs[0])+"*10") {
+					parsed = true
+				}
+				if conv, isC := ast.Unparen(a2.Rhs[0]).(*ast.CallExpr); isC && len(conv.Args) == 1 {
+					if vid, isId := ast.Unparen(conv.Args[0]).(*ast.Ident); isId {
+						ast.Inspect(fd.Body, func(q2 ast.Node) bool {
+							if a3, ok := q2.(*ast.AssignStmt); ok && len(a3.Rhs) == 1 {
+								for _, l := range a3.Lhs {
+									if lid, ok := l.(*ast.Ident); ok && (info.Defs[lid] != nil && info.Defs[lid] == info.Uses[vid]) {
+										if pc, isCall := ast.Unparen(a3.Rhs[0]).(*ast.CallExpr); isCall && strings.Contains(calleeName(info, pc), "Parse") {
+											parsed = true
+										}
+									}
+								}
+							}
+							return true
+						})
+					}
+				}
+			}
+			return true
+		})
+		if !parsed {
+			continue
+		}
+		n++
+		X := str(as.Lhs[0])
+		construct := fmt.Sprintf("minify.Number/overflow guard of %s += %s", X, str(as.Rhs[0]))
+		// the guard: dominating conditions that mention MinInt / MaxInt
+		guard := ""
+		for _, f := range g.DomFacts(y) {
+			if f.Test.Kind == flow.KCond && (strings.Contains(str(f.Test.Expr), "MinInt") || strings.Contains(str(f.Test.Expr), "MaxInt")) {
+				guard += " " + nospace(str(f.Test.Expr))
+			}
+		}
+		// the usual form: `if <overflow condition> { return … }` earlier in the same block (a compound
+		// condition has no single dominating outcome)
+		if blk, ok := c.P.Parent(as).(*ast.BlockStmt); ok {
+			for _, st := range blk.List {
+				if st == ast.Stmt(as) {
+					break
+				}
+				if ifs, isIf := st.(*ast.IfStmt); isIf && ifs.Else == nil && len(ifs.Body.List) > 0 {
+					if _, isRet := ifs.Body.List[len(ifs.Body.List)-1].(*ast.ReturnStmt); isRet && (strings.Contains(str(ifs.Cond), "MinInt") || strings.Contains(str(ifs.Cond), "MaxInt")) {
+						guard += " " + nospace(str(ifs.Cond))
+					}
+				}
+			}
+		}
+		if guard == "" {
+			c.R.Bad(rule, construct, c.pos(as), "the sum is not preceded by a comparison against MinInt / MaxInt: a long exponent overflows it")
+			continue
+		}
+		var missing []string
+		for _, z := range g.Nodes {
+			a := z.Ast()
+			if a == nil || z == y || !g.Dominates(y, z) {
+				continue
+			}
+			var root ast.Node = a
+			if z.Kind == flow.KCond {
+				root = z.Expr
+			}
+			ast.Inspect(root, func(q ast.Node) bool {
+				be, ok := q.(*ast.BinaryExpr)
+				if !ok || be.Op != token.SUB && be.Op != token.ADD {
+					return true
+				}
+				lid, isId := ast.Unparen(be.X).(*ast.Ident)
+				if !isId || info.Uses[lid] != xo {
+					return true
+				}
+				if _, isVar := isIntVar(be.Y); !isVar {
+					return true
+				}
+				key := nospace(str(be))
+				if !strings.Contains(guard, key) {
+					dup := false
+					for _, m := range missing {
+						if m == key {
+							dup = true
+						}
+					}
+					if !dup {
+						missing = append(missing, key)
+					}
+				}
+				return true
+			})
+		}
+		c.R.Check(len(missing) == 0, rule, construct, c.pos(as), "guard covers the sum and its derived offsets", "after the sum the code forms "+strings.Join(missing, ", ")+", which the overflow guard does not bound: for an exponent near MinInt/MaxInt that difference wraps around")
+	}
+	c.R.Floor(rule, "sums with a parsed exponent", n, 1)
 }
 
 func isByte(t types.Type) bool {
